@@ -9,8 +9,10 @@ CHECKS = {
         text="Lean theorems: Spec `rate` (closed formula of the statement); models of the Python kinetics functions, make_dxdtf, "
              "the librdengine marshalling and the Euler engine equal it on non-chemostated entries for all networks / spaces / "
              "states (grid statements carry named geometry hypotheses); dimension amount/time of every returned quantity; "
-             "marshalling subscripts written = subscripts read. Tie: translator KineticsPy/IndexPy/EngineCpp + correspondence "
-             "(dstate, dxdtf, marshal, euler_step) + exact-rational oracle of the rate law on the real code.",
+             "marshalling subscripts written = subscripts read; in ANY valid engine units system the derivative computed from the decoded "
+             "marshalled arrays is the SI rate law expressed in those units, for every system the builders accept (C01Units, C01Build). "
+             "Tie: translator KineticsPy/IndexPy/EngineCpp + correspondence "
+             "(dstate, dxdtf, marshal, marshal_dxdt, pysys_dimwf, euler_step) + exact-rational oracle of the rate law on the real code.",
         note="Lean kernel + {propext, Classical.choice, Quot.sound}; translator; correspondence harness; float rounding assumed "
              "within 1e-9 of the magnitude of the added terms (checked on every sampled case, not proved).",
         technique="Lean 4 proof over hand-written models + translator-generated formulas + differential correspondence",
